@@ -11,10 +11,6 @@ package getput
 //@   trusted
 //@ func (dht.QueryResult).ToError
 //@   trusted
-//@ func (dht.QueryResult).TraversalQueryResult
-//@   trusted
-//@ func (dht/krpc.NodeAddr).UDP
-//@   trusted
 
 //@ func dht/exts/getput.startGetTraversal$1
 //@   requires nonnil: s != nil && ctx != nil
